@@ -79,6 +79,19 @@
         pub fn is_client_error(&self) -> (r: bool) ensures r == (400 <= self.0 <= 499) { self.0 >= 400 && self.0 <= 499 }
         pub fn is_server_error(&self) -> (r: bool) ensures r == (500 <= self.0 <= 599) { self.0 >= 500 && self.0 <= 599 }
     }
+    /// http::StatusCode derives PartialOrd / Ord on its (non-zero) u16
+    impl PartialOrd for StatusCode {
+        #[verifier::external_body]
+        fn partial_cmp(&self, other: &StatusCode) -> (r: Option<core::cmp::Ordering>) { unimplemented!() }
+        #[verifier::external_body]
+        fn lt(&self, other: &StatusCode) -> (r: bool) ensures r == (self.0 < other.0) { unimplemented!() }
+        #[verifier::external_body]
+        fn le(&self, other: &StatusCode) -> (r: bool) ensures r == (self.0 <= other.0) { unimplemented!() }
+        #[verifier::external_body]
+        fn gt(&self, other: &StatusCode) -> (r: bool) ensures r == (self.0 > other.0) { unimplemented!() }
+        #[verifier::external_body]
+        fn ge(&self, other: &StatusCode) -> (r: bool) ensures r == (self.0 >= other.0) { unimplemented!() }
+    }
     impl PartialEq<StatusCode> for u16 {
         #[verifier::external_body]
         fn eq(&self, other: &StatusCode) -> (r: bool) ensures r == (*self == other.0) { unimplemented!() }
